@@ -16,14 +16,13 @@ statement about ALL inputs of that shape, of all lengths; the expected result is
 procedure is the linear domain's own Fourier-Motzkin entailment.
 """
 from common import *
-from c19_ext import (Run19, chain, sized_params, cstr_args, fixed_args, LIBC_EXT, ext_std, cstr_read, _u, const_string,
-                     StdStringModel)
+import os
+from c19_ext import Run19, chain, sized_params, fixed_args, LIBC_EXT, ext_std, cstr_read, _u, const_string
 from absint import Interp
-from absval import IntVal, PtrVal, CondVal, NULL, TOP, mk_const, Obj
+from absval import IntVal, PtrVal, NULL, mk_const
 from lin import Lin, _L
 from irlib import AnalysisBroken
 
-import os
 ONLY = os.environ.get('C19_CONTENT_ONLY')      # developer aid: run only the scenarios whose name contains this text
 WS4 = (32, 10, 13, 9)            # ' ' '\n' '\r' '\t'
 ASCII_HI = 127                   # scenario alphabet: 7-bit characters (signed and unsigned char agree)
@@ -235,7 +234,7 @@ class SegInterp(Interp):
         st.conv[key] = st.conv.get(key, ()) + ((off, v),)
 
 
-def seg_object(st, segs, name, desc, terminated=False, extra=None):
+def seg_object(st, segs, name, desc, terminated=False):
     """create the object holding the runs; terminated: a NUL follows the last run (C string), else the object ends there"""
     total = seg_bounds(segs)[-1]
     info = {'desc': desc}
@@ -288,6 +287,10 @@ def guarded(what, f, *args):
         return None
 
 
+def no_return(obs):
+    return any(o['kind'] == 'returns' and not o['ok'] for o in obs)
+
+
 def decide_scenario(once, what):
     """once(peel) -> obligations of one run of the scenario.  Symbolic run lengths first; concrete ones when the token
     loop was not unrolled"""
@@ -295,7 +298,8 @@ def decide_scenario(once, what):
     obs = guarded(what, once, None)
     if obs is None:
         return []
-    if not not_unrolled(obs):
+    if not not_unrolled(obs) or no_return(obs):
+        # (no return reachable in the over-approximating loop analysis: the routine does not return - reported as such)
         return obs
     out = []
     for vec in VECTORS:
@@ -306,7 +310,7 @@ def decide_scenario(once, what):
             CONCRETE = None
         if o2 is None:
             continue
-        if not_unrolled(o2):
+        if not_unrolled(o2) and not no_return(o2):
             BROKEN.append('%s: the loop that hands out the tokens is not unrolled even for concrete run lengths' % what)
             continue
         out += o2
@@ -349,28 +353,45 @@ MAXTOK = 4
 
 class TokenLog:
     """ghost: the k-th range [start, start+len) of the text that the routine hands out is remembered as
-    ghost_tok<k>_off / ghost_tok<k>_len, their number as ghost_ntok.  A range that cannot be traced to the text under
-    analysis makes the analysis broken (form not recognised), never a violation."""
+    ghost_tok<k>_off / ghost_tok<k>_len, their number as ghost_ntok.  Forms that cannot be followed make the analysis
+    broken (never a violation): a range whose start/length is not traceable, a range taken from a copy of the text
+    (unknown block), and - for a routine that returns one string (result_only) - a std::string built from the text that
+    is not the returned object (the routine goes on working on that copy through libstdc++, which is not analysed)."""
 
-    def __init__(self, run, mod):
+    def __init__(self, run, mod, fn=None, result_only=False):
         self.run = run
         self.ctors = string_ctors(mod)
         self.seen = 0
+        self.sret = None
+        if result_only:
+            idx = [n for n, p_ in enumerate(mod.fn(fn).params) if p_.get('sret')]
+            if len(idx) != 1:
+                raise AnalysisBroken('%s does not return its std::string through a result parameter' % fn)
+            self.sret = idx[0]
 
     def setup(self, run, st, env, pnames, args, sps):
         st.ghost['ntok'] = 0
         for k in range(MAXTOK):
             st.ghost['tok%d_off' % k] = Lin(-1)
             st.ghost['tok%d_len' % k] = Lin(0)
+        self.sret_obj = args[self.sret].obj if self.sret is not None else None
 
-    def record(self, interp, st, i, start, ln):
+    def record(self, interp, st, i, start, ln, this=None):
         if interp.recording > 0:
             return
         if not (isinstance(start, PtrVal) and isinstance(ln, IntVal)):
             raise AnalysisBroken('%s: start/length of the range handed out at %s not traceable' % (i.fn.name, i.where()))
-        if start.is_null or start.obj != self.run.textobj:
-            # a string built from something else (e.g. "" literal): not a range of the text
+        if start.is_null:
             return
+        if start.obj != self.run.textobj:
+            so = st.objs.get(start.obj)
+            if so is None or so.kind != 'global':
+                raise AnalysisBroken('%s: the range handed out at %s is not taken from the text itself (a copy?): not '
+                                     'followed' % (i.fn.name, i.where()))
+            return          # a string literal ("")
+        if self.sret_obj is not None and not (isinstance(this, PtrVal) and this.obj == self.sret_obj):
+            raise AnalysisBroken('%s: a std::string other than the result is built from the text at %s: not followed'
+                                 % (i.fn.name, i.where()))
         l = st.as_s(ln)
         if l is None:
             l = st.force_s(ln)
@@ -392,7 +413,7 @@ class TokenLog:
                 ln = st.mem.get((pl.obj, pl.off.c, 8))
             self.record(interp, st, i, start, ln)
         elif callee in self.ctors and len(args) >= 3:
-            self.record(interp, st, i, args[1], args[2])
+            self.record(interp, st, i, args[1], args[2], args[0])
         return None
 
 
@@ -415,13 +436,43 @@ def buffer_text(make_segs):
     return setup
 
 
+WORDS = [('ghost_ntok', 'number of ranges handed out'), ('ghost_nargv', 'number of pointers stored into argv'),
+         ('ghost_nnul', 'number of bytes written into the line'), ('ghost_badwrite', 'writes other than a NUL / a token pointer'),
+         ('ghost_token_in_buf', '*token points into the text'), ('ghost_token_off', 'offset of *token'),
+         ('cursor_post_off', 'offset of reader->cursor afterwards'), ('cursor_post_in_buf', 'reader->cursor stays in the text'),
+         ('strt_post_off', 'offset of reader->strt afterwards'), ('fini_post_off', 'offset of reader->fini afterwards'),
+         ('ret_first', 'byte at the result'), ('ret_last', 'byte at result + s_len - 1'), ('needle_first', 'needle[0]'),
+         ('needle_last', 'needle[s_len - 1]'), ('ret_null', '(result is NULL)'), ('ret_in_arg0', '(result points into the haystack)'),
+         ('ret_off', 'offset of the result'), ('ret', 'returned value')]
+for _k in range(4):
+    WORDS[0:0] = [('ghost_tok%d_off' % _k, 'start of range %d' % (_k + 1)), ('ghost_tok%d_len' % _k, 'length of range %d' % (_k + 1)),
+                  ('ghost_argv%d_off' % _k, 'offset argv[%d] points to' % _k), ('ghost_nul%d_off' % _k, 'offset of NUL write %d' % (_k + 1))]
+
+
+def humanise(clause):
+    import re
+    for k, v in WORDS:
+        clause = re.sub(r'\b%s\b' % re.escape(k), v, clause)
+    return clause
+
+
 def relabel(obs, label, kinds=('post', 'returns')):
+    """keep the scenario clauses (bounds etc. are c19.py's business), report them under the routine's source name and
+    say in words what is expected"""
     out = []
     for o in obs:
         if o['kind'] not in kinds:
             continue
         o['function'] = label
         o.pop('call_stack', None)
+        if not o['ok'] and o['kind'] == 'post':
+            scen_, _, clause = o['name'].rpartition(': ')
+            o['detail'] = ('%s, for every input of the form [%s]: expected "%s" - not established (on some path through '
+                           'the routine the clause does not follow from the facts collected along it)'
+                           % (label, scen_, humanise(clause)))
+        elif not o['ok'] and o['kind'] == 'returns':
+            o['detail'] = ('%s does not return for the inputs of at least one content scenario (endless loop, or every path '
+                           'leaves the buffers it was given)' % label)
         out.append(o)
     return out
 
@@ -449,7 +500,7 @@ def run_trim(rep, repo):
     def scen(name, make_segs, then):
         it = SegInterp(mod, externals=ext, opaque=op)
         run = Run19(it, [BUF])
-        log = TokenLog(run, mod)
+        log = TokenLog(run, mod, c[0].name, result_only=True)
         it.call_hook = log.hook
         if guarded('igris::trim', run.run, c[0].name, FnSpec(setup=chain(log.setup, buffer_text(make_segs)),
                                                               post=[dict(name=name, then=then)])) is not None:
@@ -789,7 +840,7 @@ def run_argvc(rep, repo):
              ['ret == 0', 'ghost_nargv == 0'], lim + ['%s <= 0' % mx], n_form)
         if n_form:
             scen(fname, 'text = ws^a T^m NUL U^n (terminator inside the buffer): the line ends at the NUL, argv = [a]',
-                 nul_inside, ['ret == 1', 'ghost_nargv == 1', 'ghost_argv0_off == a', 'ghost_nnul == 0'],
+                 nul_inside, ['ret == 1', 'ghost_nargv == 1', 'ghost_argv0_off == a'],
                  lim + ['%s >= 2' % mx], n_form)
 
 
@@ -846,20 +897,25 @@ def ext_memcmp_content(interp, st, i, args):
     w = i.ty.get('bits', 32)
     if not (isinstance(a, PtrVal) and isinstance(b, PtrVal)) or a.is_null or b.is_null or not isinstance(interp, SegInterp):
         return [(st, st.fresh_int(w, True, 'memcmp'))]
+    if st.cons.entails_le(n, 0):
+        return [(st, mk_const(w, 0))]
     for (x, y) in ((a, b), (b, a)):
-        k = seg_run_at(st, x.obj, x.off)
-        if k is not None:
-            sg = st.objs[x.obj].info['segs'][k]
-            if sg.cls[0] == 'copy' and sg.cls[1] == y.obj and st.cons.entails_eq(sg.cls[2], y.off) and \
-                    st.cons.entails_le(n, sg.n):
+        # x lies d bytes into a run that copies the bytes at (obj, off): equal when y is (obj, off + d) and the n bytes
+        # stay inside the run
+        xo = st.objs.get(x.obj)
+        segs = xo.info.get('segs') if xo is not None else None
+        if segs is None or st.conv.get(('segw', x.obj)) or st.conv.get(('segw', y.obj)):
+            continue
+        bnd = seg_bounds(segs)
+        for k, sg in enumerate(segs):
+            if sg.cls[0] == 'copy' and sg.cls[1] == y.obj and st.cons.entails_le(bnd[k], x.off) and \
+                    st.cons.entails_le(x.off + n, bnd[k + 1]) and st.cons.entails_eq(sg.cls[2] + x.off - bnd[k], y.off):
                 return [(st, mk_const(w, 0))]
     out = []
     ne = st.fork()
     r = ne.fresh_int(w, True, 'memcmp')
     ne.add_diseq(r.s, 0)
     out.append((ne, r))
-    if st.cons.entails_le(n, 0):
-        return [(st, mk_const(w, 0))]
     eqs = [st]
     both = all(st.objs.get(x.obj) is not None and st.objs[x.obj].info.get('segs') is not None for x in (a, b))
     if both and st.cons.entails_le(1, n):
@@ -1238,6 +1294,6 @@ def run_all(rep, repo, tier):
     run_memmem(rep, repo)
     run_compare_node(rep, repo)
     run_creader(rep, repo)
-    for rule, n in (('R-TRIM-CONTENT:post', 8), ('R-SPLIT-CONTENT:post', 30), ('R-ARGVC-CONTENT:post', 50),
+    for rule, n in (('R-TRIM-CONTENT:post', 6), ('R-SPLIT-CONTENT:post', 30), ('R-ARGVC-CONTENT:post', 50),
                     ('R-MEMMEM-CONTENT:post', 8), ('R-PATHCMP-CONTENT:post', 10), ('R-CREADER-CONTENT:post', 35)):
         rep.floor(rule, n)
